@@ -274,7 +274,7 @@ def shard(ctx):
                     run_case(ctx, {'kind': 'p', 'spec': spec, 'trans': trans,
                                    'params': {}, 'root_attach': False}, rng)
                 ctx.stratum('sweep')
-    for i in ctx.indices(ctx.pick(6000, 250000)):
+    for i in ctx.indices(ctx.pick(6000, 2000000)):
         rng = ctx.rng('rand', i)
         spec = punct_tree(rng)
         trans = rng.choice(['punctuation_verylow', 'punctuation_root',
